@@ -58,12 +58,14 @@ pub fn clear(local_port: u16) {
     })
 }
 
+// A seed replaces only the *first* choice an endpoint makes (it is consumed): what the code computes
+// for a duplicate INIT / a re-sent INIT of the same association is not overridden.
 pub(crate) fn seed_tag(local_port: u16) -> Option<u32> {
-    with(|r| r.seeds.get(&local_port).and_then(|s| s.tag))
+    with(|r| r.seeds.get_mut(&local_port).and_then(|s| s.tag.take()))
 }
 
 pub(crate) fn seed_tsn(local_port: u16) -> Option<u32> {
-    with(|r| r.seeds.get(&local_port).and_then(|s| s.tsn))
+    with(|r| r.seeds.get_mut(&local_port).and_then(|s| s.tsn.take()))
 }
 
 /// Start recording the trace of the endpoint with this local port.
